@@ -95,6 +95,11 @@ CHECKS = {
   text="Props/C19.v: cdist22/cdist32 return for ALL lengths (0 included) shape (L1,L2)/(X,L1,L2) with entry = sum_k (a_ik-b_jk)^2, resp. its square root (C19_kernel22/32, any ND: C19_euclidean2_any_dim); rectangular_grid: count nx*ny*nz, Cartesian product of the axes, NoDup, order, spacing, centred with 0<=o<s/2, contained in the padded box (C19_grid_*); nearest_atom_index = -1 iff every atom is beyond the cut-off, else an atom at minimal distance (C19_nearest); prune soundness + (1+eps) band under the KD-tree query contract (C19_prune_partial); aso/aeif = (weighted) conformer average of the vdW-union indicator (times the nearest atom's charge) (C19_aso, C19_aeif, C19_aeif_value). Every run rebuilds molli_xt/distance.cpp with g++ against tools/pybind11_shim and drives every registered kernel, drives the shipped extension with strided/transposed/Fortran/reversed/int/mixed inputs and 0-length axes (exact equality on dyadic inputs), and ~150 (thorough ~1500) grids/ensembles; all observations are judged by Model.Dist.check / Model.Grid.gcheck inside Coq.",
   note="PARTIAL: IEEE rounding only tolerance-checked (grid points within 2e-3 in d^2 of a sphere surface and a 1e-9 band at the cut-off are left out, as the property says); scipy KDTree external (its answers are checked against the spec in Coq; prune theorem under hypotheses); sqrt via its specification. Trusted: Coq kernel+vm_compute, harness/c19.py, tools/pybind11_shim + g++, CPython/numpy/scipy. Axioms: stdlib Reals (sig_forall_dec, sig_not_dec, functional_extensionality_dep) for the R kernel theorems; grid theorems closed. Fix 1e05f0a (max_dist ignored for plain geometries). Known findings: float64 non-contiguous input computed in float32; last axis length not checked.",
   ref="7/C19"),
+ "C12": dict(
+  technique="Coq proofs (list induction for structure; ring/field/nsatz over R reusing C11's proper-rotation theorems) about one field-parametric Gallina model of Structure.join and the molli-combine loop + differential correspondence of the same model run over Q inside Coq against exact-rational observations (tie H) + Python oracle",
+  text="Props/C12.v: the product has exactly the atoms of A and B minus the two attachment atoms (records copied, names unique) and the bonds not touching them plus ONE new bond between the former neighbours (C12_atoms_bonds, any field, closed); every row is gA/gB of its source row with gA, gB distance- and signed-volume-preserving, former neighbours joined by (d/|v1|) v1, B facing A, for every valid orthogonal vector and with or without any rotamer rotation (C12_rigid_each_and_new_bond, C12_fragment_shape, C12_join_rotation, C12_requested_length); charge qA+qB / mult mA+mB-1 unless overridden incl. 0 charge (C12_charge_mult); ov irrelevant outside the antiparallel branch, relevant inside (refuted-before-repair lemma), repaired choice valid (C12_no_hidden_state, C12_det_ort_nonzero); the repaired combine loop addresses the intended core atom for ANY order of core_aps, the old one only for ascending (C12_iterated, C12_iterated_before_repair). Every run drives 361 (thorough 4332) joins / _ml_assemble calls on generated tree/ring fragments (general, exactly (anti)parallel, axis-aligned, invalid attachment atoms, 2-3-attachment cores in ascending and shuffled order), each twice under different np.random states, compared with the model by vm_compute (structure exactly, coordinates 1e-8).",
+  note="PARTIAL: IEEE rounding tolerance-checked; the rotamer the scan selects is not modelled (theorems for every angle; the angle about the new bond is measured and admitted only when the scan is requested or the rotation is antiparallel); sources-untouched / new-objects judged by the Python oracle on deep snapshots (functional model). Trusted: Coq kernel+vm_compute; harness/c12.py (generator, uid via Atom.attrib, Fraction(float), sqrt witnesses re-checked in Coq, stub for absent molli.external.openbabel); numpy, molli_xt. Assumes A and B distinct with unique atom names; dist=0 counts as not requested. Known finding C12:mult:zero-becomes-one. Three defects repaired (0d46b34, 3011386, fd0530a). Axioms: sig_forall_dec, functional_extensionality_dep (Reals) for the geometric theorems; structural ones closed.",
+  ref="7/C12"),
 }
 
 PENDING = {
